@@ -131,57 +131,6 @@ fn impl_line(input: &str, out: &Out) -> String {
 }
 
 // ---------------------------------------------------------------- panic classes
-fn digits_from(cs: &[char], mut i: usize) -> (String, usize) {
-    let s = i;
-    while i < cs.len() && cs[i].is_ascii_digit() { i += 1; }
-    (cs[s..i].iter().collect(), i)
-}
-/// classes of the known unwrap sites; "-" when the panic is not explained by one of them
-fn panic_class(input: &str, msg: &str) -> &'static str {
-    if !msg.contains("command/parser/commands/query.rs") {
-        return "-";
-    }
-    let cs: Vec<char> = input.chars().collect();
-    let mut bad_limit = false;
-    let mut bad_int = false;
-    let mut bad_float = false;
-    let mut i = 0;
-    while i < cs.len() {
-        // LIMIT / OFFSET followed by an integer that is not a u32
-        if cs[i].is_ascii_alphabetic() && (i == 0 || !cs[i - 1].is_ascii_alphabetic()) {
-            let s = i;
-            let mut j = i;
-            while j < cs.len() && cs[j].is_ascii_alphabetic() { j += 1; }
-            let w: String = cs[s..j].iter().collect();
-            if w.eq_ignore_ascii_case("LIMIT") || w.eq_ignore_ascii_case("OFFSET") {
-                let mut k = j;
-                while k < cs.len() && matches!(cs[k], ' ' | '\t' | '\n' | '\r') { k += 1; }
-                let neg = k < cs.len() && cs[k] == '-';
-                let (d, _) = digits_from(&cs, if neg { k + 1 } else { k });
-                if !d.is_empty() && (neg || d.parse::<u32>().is_err()) { bad_limit = true; }
-            }
-        }
-        // numeric literal
-        if cs[i].is_ascii_digit() && (i == 0 || !cs[i - 1].is_ascii_digit()) {
-            let neg = i > 0 && cs[i - 1] == '-';
-            let (d, e) = digits_from(&cs, i);
-            if e + 1 < cs.len() && cs[e] == '.' && cs[e + 1].is_ascii_digit() {
-                let (f, _) = digits_from(&cs, e + 1);
-                let t = format!("{}{}.{}", if neg { "-" } else { "" }, d, f);
-                if t.parse::<f64>().map(|x| !x.is_finite()).unwrap_or(false) { bad_float = true; }
-            } else {
-                let t = format!("{}{}", if neg { "-" } else { "" }, d);
-                if t.parse::<i64>().is_err() { bad_int = true; }
-            }
-        }
-        i += 1;
-    }
-    if msg.contains("ParseIntError") && bad_limit { "limit-offset-unwrap" }
-    else if msg.contains("ParseIntError") && bad_int { "int-literal-unwrap" }
-    else if msg.contains("Option::unwrap()") && bad_float { "float-literal-unwrap" }
-    else { "-" }
-}
-
 /// BATCH rebuilds every member from its tokens (`(`, `)`, `[` dropped, `]` ends the batch, numbers
 /// re-printed through f64, escapes resolved, a space before every word, `;` inside strings splits).
 /// This is the text it hands to the member parser (independent re-statement of the collector).
@@ -213,15 +162,14 @@ fn batch_lossy(input: &str, c: &Command) -> bool {
         _ => false,
     }
 }
-/// text the numeric-literal scan of `panic_class` looks at: the input, plus (BATCH) the member texts as
-/// the collector rebuilds them — that is what the member parser sees
+/// The unwrap sites of the grammar actions (findings C17-limit-offset-unwrap, C17-int-literal-unwrap,
+/// C17-float-literal-unwrap) were repaired in /repo (3a22cf3, 871e1a6): no panic of `parse_command`
+/// belongs to a known class any more.
+fn panic_class(_input: &str, _msg: &str) -> &'static str {
+    "-"
+}
 fn scan_text(input: &str) -> String {
-    let toks = tokenize(input.trim());
-    let mut t = input.to_string();
-    if toks.first().is_some_and(|t| word_is(t, "BATCH")) {
-        for part in batch_rebuild(input) { t.push_str(" ; "); t.push_str(&part); }
-    }
-    t
+    input.to_string()
 }
 
 fn out_kind(o: &Out) -> String {
@@ -412,6 +360,7 @@ fn stream_f64(a: &snel_harness::out::Args) {
         let q = format!("QUERY ev WHERE x = {}", text);
         match run_parse(&q) {
             Out::Ok(Command::Query { where_clause: Some(Expr::Compare { value: serde_json::Value::Number(n), .. }), .. }) if f.is_finite() && n.as_f64().map(|g| g.to_bits()) == Some(f.to_bits()) => s.oracle_ok(),
+            Out::Err(_) if !f.is_finite() => s.oracle_ok(), // a non-finite literal is rejected (was: unwrap panic)
             Out::Panic(msg) => s.oracle_fail(i, panic_class(&q, &msg), &format!("parse_command panicked: input={:?} panic={}", q, msg)),
             o => s.oracle_fail(i, "-", &format!("float literal {:?} did not arrive as {:?}: {}", text, f, out_kind(&o))),
         }
@@ -579,7 +528,13 @@ fn stream_dispatch(a: &snel_harness::out::Args) {
             });
             let res = tokio::time::timeout(std::time::Duration::from_secs(30), h).await;
             let (imp, ok, detail) = match res {
-                Ok(Ok((_, out))) => ("handled", !out.is_empty(), format!("response bytes={}", out.len())),
+                Ok(Ok((_, out))) => {
+                    let body = String::from_utf8_lossy(&out).into_owned();
+                    // Batch has its own arm since fbe6de4: a 400 response, not a member-wise execution
+                    let ok = !out.is_empty() && (v != "Batch" || (body.contains("400") && body.contains("BATCH is not supported")));
+                    if v == "Batch" && ok { s.tally("batch:400-response"); }
+                    ("handled", ok, format!("response bytes={} {}", out.len(), body.chars().take(120).collect::<String>()))
+                }
                 Ok(Err(e)) if e.is_panic() => {
                     let msg = LAST_PANIC.lock().unwrap().clone();
                     (if msg.contains("unreachable") || msg.contains("non-command") { "unreachable" } else { "panic" }, false, msg)
@@ -589,8 +544,7 @@ fn stream_dispatch(a: &snel_harness::out::Args) {
             };
             s.case(&format!("d {v}"), imp, true);
             if ok { s.oracle_ok(); } else {
-                let class = if v == "Batch" && imp == "unreachable" { "batch-unreachable" } else { "-" };
-                s.oracle_fail(i, class, &format!("dispatch of {:?} ({v}): {imp} {detail}", text));
+                s.oracle_fail(i, "-", &format!("dispatch of {:?} ({v}): {imp} {detail}", text));
             }
         }
     });
@@ -621,8 +575,10 @@ fn stream_nesting(a: &snel_harness::out::Args) {
         ("openbrace", 10), ("openbrace", 16), ("openbrace", 22), ("openbrace", 28), ("openbrace", 40),
     ];
     let mut dead: std::collections::HashSet<&str> = Default::default();
+    // the probe set is fixed: a larger --cases (escalation x10) does not repeat or extend it
+    let ncases = a.cases.min(plan.len() as u64);
     for (idx, (shape, depth)) in plan.iter().enumerate() {
-        if (idx as u64) >= a.cases { break; }
+        if (idx as u64) >= ncases { break; }
         if dead.contains(shape) {
             // a shallower depth of the same shape already exceeded the limit; deeper ones only cost time
             s.tally(&format!("{shape}:skipped-after-failure"));
